@@ -131,8 +131,10 @@ chk('C06', 'other',
     'symmetric, !=-consistent and consistent with hash and copy/deepcopy for Parameter, Parameters, ColumnInfo, DataInfo, '
     'VariabilityLevel/Hierarchy, EstimationStep, SimulationStep, ExecutionSteps; public properties cannot be assigned '
     'and replace() leaves the original unchanged.',
-    'NOT claimed: "no public function mutates its argument incl. DataFrame contents", statement/code well-formedness, '
-    'Expr-bearing classes and Model (pandas/symengine are not symbolically reachable). Trusted: structural model of '
+    'NOT claimed as a solver verdict: "no public function mutates its argument incl. DataFrame contents" (pandas/symengine '
+    'are not symbolically reachable) - a concrete companion probe (sampling; evidence entry probe:no_mutation) calls '
+    '~185 pharmpy.modeling functions on four start models and compares a deep snapshot of the input before/after; '
+    'statement/code well-formedness, Expr-bearing classes and Model. Trusted: structural model of '
     'builtin hash (failing laws re-decided with the real hash), Unit table, np.isnan/float wrappers, FakeDist.',
     'symbolic execution (CrossHair+z3, IEEE FP theory) of real constructors, __eq__/__hash__, copy, replace',
     'DESIGN.md section 3 C06', 'E1')
@@ -142,8 +144,11 @@ chk('C12', 'other',
     'option over its table, collections <=2-3) of Parameter, Parameters, ColumnInfo, DataInfo, VariabilityLevel/Hierarchy, '
     'EstimationStep, SimulationStep, ExecutionSteps, LogEntry: to_dict contains only JSON types and leaves the object '
     'unchanged, from_dict(to_dict(x)) == x, and from_dict(json.loads(json.dumps(to_dict(x)))) == x.',
-    'NOT claimed: ModelHash stability across processes / PYTHONHASHSEED / construction order, the generic-code parser '
-    'round trip, Expr-bearing components and Model. Trusted: JSON contract model (cross-checked against the real json '
+    'NOT claimed as a solver verdict: ModelHash stability across processes / PYTHONHASHSEED / construction order and '
+    'its sensitivity to content (two concrete companion probes, sampling: one model keyed in four interpreters; 40 '
+    'models with pairwise different datasets created one after the other in one interpreter must get 40 keys, name / '
+    'description ignored, inits / statements / steps not), the generic-code parser round trip, Expr-bearing components '
+    'and Model. Trusted: JSON contract model (cross-checked against the real json '
     'module on failing paths, samples and jsonreal_* obligations) and the stubs shared with C06.',
     'symbolic execution (CrossHair+z3) of real to_dict/from_dict with a structural JSON model',
     'DESIGN.md section 3 C12', 'E1')
@@ -214,7 +219,10 @@ chk('C13', 'other',
     'reference reader written from docs/NONMEM.rst: all rows/texts <=4 (thorough 5) characters and all items <=3-4 '
     'characters over the stated alphabets, <=2 $INPUT options; plus z3 regex-theory equivalence of the separator and '
     'comment regex literals with the documented languages (no length bound).',
-    'NOT claimed: pd.read_table assembly / padding, IGNORE/ACCEPT filters, TIME/DATE, the write/read cycle. Trusted: the '
+    'NOT claimed as a solver verdict: pd.read_table assembly / padding and the IGNORE/ACCEPT filters (two concrete '
+    'companion probes, sampling: the real read_nonmem_dataset on two fixed data texts / 16 filter lists must agree cell '
+    'by cell, with exact float equality, with the composition of the reference kernel), TIME/DATE, the write/read '
+    'cycle. Trusted: the '
     'reference reader, np.float64 recorder (Python float syntax), StringIO constructor recorder, pandas '
     '`pat.split(line.strip())` (checked at run time), stub $INPUT stream. Counterexamples are re-evaluated unstubbed.',
     'symbolic execution (CrossHair+z3) of real dataset lexing code + z3 regex language equivalence',
